@@ -152,4 +152,75 @@ def extract_datetime_flags(repo):
     return "".join(out), {"year_unwrap": year_unwrap, "unicode_digits": n_uni > 0, "offset_unreachable": unreachable}
 
 
-EXTRACTORS = {"datetime_flags": ("DateTimeFlags.lean", extract_datetime_flags)}
+# ------------------------------------------------------------------ datatype dispatch of SparqlValue::try_from_literal
+
+VALUE_SRC = "sparql/src/value.rs"
+ARM_SHAPES = [
+    (r"Some\(Self::Number\(SparqlNumber::try_parse_integer\(lex\)\?\)\)", lambda m: ".parseInteger"),
+    (r"Some\(Self::Number\(SparqlNumber::try_parse::<(\w+)>\(lex\)\?\)\)", lambda m: '.parseAs "%s"' % m.group(1)),
+    (r"Some\(Self::String\(lex\.clone\(\),None\)\)", lambda m: ".string"),
+    (r"Some\(Self::Boolean\(lex\.parse\(\)\.ok\(\)\)\)", lambda m: ".boolean"),
+    (r"Some\(Self::DateTime\(lex\.parse\(\)\.ok\(\)\)\)", lambda m: ".dateTime"),
+    (r"Some\(Self::Number\(SparqlNumber::try_parse_integer\(lex\)\?\.check\(\|n\|!n\.(\w+)\(\)\)\?,?\)\)",
+     lambda m: '.checked true "%s"' % m.group(1)),
+    (r"Some\(Self::Number\(SparqlNumber::try_parse_integer\(lex\)\?\.check\(\|n\|n\.(\w+)\(\)\)\?,?\)\)",
+     lambda m: '.checked false "%s"' % m.group(1)),
+    (r"Some\(Self::Number\(SparqlNumber::try_parse_integer\(lex\)\?\.check\(_number::SparqlNumber::(\w+)\)\?,?\)\)",
+     lambda m: '.checked false "%s"' % m.group(1)),
+]
+
+
+def extract_xsd_dispatch(repo):
+    """the `match &dt[xsd::PREFIX.len()..] { "name" => arm, … , _ => None }` of try_from_literal as a table of
+    (local datatype name, arm descriptor), in source order; any arm of an unknown shape: ExtractError"""
+    text = read(repo, VALUE_SRC)  # noqa: F821
+    m = re.search(r"pub fn try_from_literal\(genlit: &GenericLiteral<Arc<str>>\) -> Option<Self> \{(.*?)\n    \}\n", text, re.S)
+    if not m:
+        raise ExtractError("%s: `try_from_literal` not found" % VALUE_SRC)  # noqa: F821
+    body = _norm(m.group(1))
+    head = ("matchgenlit{GenericLiteral::LanguageString(lex,tag)=>{Some(Self::String(lex.clone(),Some(tag.clone())))}"
+            "GenericLiteral::Typed(lex,dt)=>{letdt=dt.as_str();if!dt.starts_with(xsd::PREFIX.as_str()){returnNone;}"
+            "match&dt[xsd::PREFIX.len()..]{")
+    if not body.startswith(head) or not body.endswith("_=>None,}}}"):
+        raise ExtractError("%s: `try_from_literal` no longer has the transcribed frame" % VALUE_SRC)  # noqa: F821
+    arms = body[len(head):-len("_=>None,}}}")]
+    out = []
+    pos = 0
+    arm_re = re.compile(r'"(\w+)"=>')
+    starts = [(mm.start(), mm.end(), mm.group(1)) for mm in arm_re.finditer(arms)]
+    if not starts or starts[0][0] != 0:
+        raise ExtractError("%s: datatype arms not recognised" % VALUE_SRC)  # noqa: F821
+    for i, (a, b, name) in enumerate(starts):
+        end = starts[i + 1][0] if i + 1 < len(starts) else len(arms)
+        rhs = arms[b:end]
+        if not rhs.endswith(","):
+            raise ExtractError("%s: arm %r does not end in a comma" % (VALUE_SRC, name))  # noqa: F821
+        rhs = rhs[:-1]
+        for rx, mk in ARM_SHAPES:
+            mm = re.fullmatch(rx, rhs)
+            if mm:
+                out.append((name, mk(mm)))
+                break
+        else:
+            raise ExtractError("%s: arm for %r has an unknown shape: %s" % (VALUE_SRC, name, rhs))  # noqa: F821
+    lean = [HEADER,  # noqa: F821
+            "namespace SophiaModel.Gen\n\n",
+            "/-- right-hand side of one arm of the datatype `match` in `SparqlValue::try_from_literal` (%s) -/\n" % VALUE_SRC,
+            "inductive XsdArm where\n",
+            "  | parseInteger                           -- `Number(SparqlNumber::try_parse_integer(lex)?)`\n",
+            "  | parseAs (ty : String)                  -- `Number(SparqlNumber::try_parse::<ty>(lex)?)`\n",
+            "  | checked (negated : Bool) (pred : String) -- `Number(try_parse_integer(lex)?.check(|n| [!]n.pred())?)`\n",
+            "  | string                                 -- `String(lex.clone(), None)`\n",
+            "  | boolean                                -- `Boolean(lex.parse().ok())`\n",
+            "  | dateTime                               -- `DateTime(lex.parse().ok())`\n",
+            "  deriving Repr, DecidableEq\n\n",
+            "/-- the arms in source order: (local name of the datatype in the XSD namespace, right-hand side); every other\n"
+            "name, and every datatype outside the namespace, is `None` -/\n",
+            "def xsdDispatch : List (String × XsdArm) := [\n",
+            ",\n".join('  ("%s", %s)' % (n, a) for n, a in out),
+            "]\n\nend SophiaModel.Gen\n"]
+    return "".join(lean), {"arms": len(out)}
+
+
+EXTRACTORS = {"datetime_flags": ("DateTimeFlags.lean", extract_datetime_flags),
+              "xsd_dispatch": ("XsdDispatch.lean", extract_xsd_dispatch)}
